@@ -28,8 +28,16 @@ def gen_program(rng, typ, L):
     """-> (ops list (without observations), nonempty-tracking) ; ops are tuples"""
     arity = ARITY.get(typ, 1)
     vals, _ = gen.sequence(rng, n=max(4, L), scale_range=(-8, 8), max_offset_exp=9)
+    collinear = None
     if typ == 'Covariance':
         v2, _ = gen.sequence(rng, n=max(4, L), scale_range=(-8, 8), max_offset_exp=9)
+        if rng.random() < 0.4:
+            # exactly / nearly collinear pairs on badly conditioned coordinates (timestamps): y = a*x + b
+            x0 = rng.choice([1.6e9, 1e7, 3.0e5, 1e12])
+            step = rng.choice([0.1, 1.0, 0.001])
+            a, b = rng.choice([1.0, -0.3, 2.5]), rng.choice([0.0, 7.0, -1e6])
+            vals = [x0 + step * i for i in range(max(4, L) * 3)]
+            collinear = {x: a * x + b for x in vals}
     ops = []
     for i in range(L):
         r = rng.random()
@@ -40,7 +48,10 @@ def gen_program(rng, typ, L):
             for _ in range(k):
                 x = rng.choice(vals)
                 if arity == 2:
-                    y = rng.choice(v2) if typ == 'Covariance' else rng.choice([0.0, 1.0, 10.0 ** rng.uniform(-6, 6)])
+                    if collinear is not None:
+                        y = collinear[x]
+                    else:
+                        y = rng.choice(v2) if typ == 'Covariance' else rng.choice([0.0, 1.0, 10.0 ** rng.uniform(-6, 6)])
                     xs += [x, y]
                 else:
                     xs.append(x)
@@ -176,6 +187,28 @@ def shard(desc):
                 cases.append(c)
                 variants.append((c, m, rt, after))
         groups.append((typ, base, bm, variants))
+    for i in range(desc.get('nlong', 0)):
+        # long Quantile streams (beyond 2^16 observations) checkpointed near the end, then continued
+        typ = 'Quantile'
+        p = rng.choice([0.1, 0.3, 0.9, 0.99, 1.0 / 3.0, 0.5])
+        n = rng.choice([70000, 90000])
+        stream = [rng.gauss(0, 1) * 100 for _ in range(n)]
+        tail = [rng.gauss(0, 1) * 100 for _ in range(7)]
+        ops = [('A', 0, stream)] + [('A', 0, [x]) for x in tail]
+        base = Case('%s-%d' % (desc['name'], cid), typ, [p])
+        cid += 1
+        bm, _, _ = emit(base, typ, ops, None, 'j', 'S', None)
+        cases.append(base)
+        variants = []
+        for k in (1, 4):
+            for fmt in ('j', 'v'):
+                c = Case('%s-%d' % (desc['name'], cid), typ, [p], meta={'k': k, 'fmt': fmt, 'mode': 'S'})
+                cid += 1
+                m, rt, after = emit(c, typ, ops, k, fmt, 'S', None)
+                cases.append(c)
+                variants.append((c, m, rt, after))
+        groups.append((typ, base, bm, variants))
+        res.count('long_quantile_programs')
     logs = run_driver(desc['binary'], ''.join(c.text() for c in cases))
     for typ, base, bm, variants in groups:
         brecs = logs.get(base.id)
@@ -284,13 +317,14 @@ def run(tier, seed):
             nsh = common.NPROC * mult
             descs = [{'name': '%s%d' % (variant[0], s), 'variant': variant, 'binary': binary, 'types': types,
                       'nprog': max(1, int(nprog * frac) // nsh), 'maxlen': maxlen, 'maxpos': maxpos,
+                      'nlong': (1 if s < (2 if tier == 'quick' else 16) and variant == 'release' else 0),
                       'seed': seed * 1000003 + s * 7919 + sum(map(ord, variant))} for s in range(nsh)]
             total.merge(common.run_shards(shard, descs))
         if tier == 'thorough':
             miri_leg(seed, total)
     except common.Inconclusive as e:
         total.inconclusive.append(str(e))
-    need = {'nontrivial_variants': 2000, 'serialize_only_variants': 200, 'quantile_checkpoints': 100}
+    need = {'nontrivial_variants': 2000, 'serialize_only_variants': 200, 'quantile_checkpoints': 100, 'long_quantile_programs': 2}
     for t in EST + HISTS + ['Quantile']:
         need['programs_%s' % t] = 5
     if tier == 'thorough':
